@@ -29,10 +29,10 @@ type Op struct {
 	Docs   [][]byte `json:"docs,omitempty"`
 	Flags  uint32   `json:"flags,omitempty"`
 	Chunks []int    `json:"chunks,omitempty"`
-	Idx    int      `json:"idx,omitempty"` // scribble: which lent buffer; redecode: which earlier Parse result
+	Idx    int      `json:"idx,omitempty"`   // scribble: which lent buffer; redecode: which earlier Parse result
 	Reuse  bool     `json:"reuse,omitempty"` // decoder: every Decode call goes into the same variable
-	N      int      `json:"n,omitempty"`   // churn: number of calls
-	Par    bool     `json:"par,omitempty"` // churn on a second goroutine too
+	N      int      `json:"n,omitempty"`     // churn: number of calls
+	Par    bool     `json:"par,omitempty"`   // churn on a second goroutine too
 }
 
 type Case struct {
@@ -61,6 +61,10 @@ type strOpts struct {
 	S string         `json:"s,string"`
 	P *int64         `json:"p,string"`
 	M map[string]int `json:"m"`
+	// string-kinded types the option also applies to: the quoted text is handed to their own decoder
+	N  stdjson.Number  `json:"n,string"`
+	PN *stdjson.Number `json:"pn,string"`
+	X  string          `json:"x,string"`
 }
 
 var targets = []func() any{
